@@ -145,6 +145,51 @@ func c03FaultScenarios(tier string) []*h.Scenario {
 			out = append(out, s)
 		}
 	}
+	// auto-discovered bounds: the cloud minimum is raised between the scans and the second scan's
+	// refresh may fail once (the provider is rebuilt)
+	{
+		p := c03Case{U: 5, Min: 1, Slow: 5, Fast: 9, Band: "fast", Auto: true}
+		s := c03Build(p)
+		s.Name = "c03.auto-refresh"
+		s.Slots = 3
+		g0 := s.Groups[0]
+		s.Script = func(hh *h.Hist, slot int) {
+			if slot == 1 {
+				if a := hh.W.FindASG(g0.ASG.Name); a != nil {
+					a.Min = 4
+				}
+			}
+		}
+		s.Groups[0].Opts.SlowNodeRemovalRate, s.Groups[0].Opts.FastNodeRemovalRate = 1, 1
+		s.MaxEventsPerSlot = 1
+		s.Events = func(hh *h.Hist, slot int) []h.Event { return []h.Event{evRefreshFails(), evRestart()} }
+		out = append(out, s)
+	}
+	// the node / pod listers fail in a scan after nodes have vanished
+	{
+		p := c03Case{U: 5, Min: 3, Slow: 5, Fast: 9, Band: "none"}
+		s := c03Build(p)
+		s.Name = "c03.lister-faults"
+		s.Slots = 3
+		g0 := s.Groups[0]
+		s.Script = func(hh *h.Hist, slot int) {
+			if slot == 1 {
+				// the two newest nodes are gone (terminated outside escalator) and the load has finished:
+				// from now on the group is idle with exactly min_nodes untainted nodes
+				hh.W.Pods = nil
+				a := hh.W.FindASG(g0.ASG.Name)
+				for k := 0; k < 2 && len(a.Instances) > 0; k++ {
+					last := a.Instances[len(a.Instances)-1]
+					a.Instances = a.Instances[:len(a.Instances)-1]
+					a.Desired--
+					hh.W.EC2[last.ID].State = "terminated"
+				}
+				hh.W.Settle()
+			}
+		}
+		s.FaultOps = map[string]bool{sim.OpListNodes: true, sim.OpListPods: true}
+		out = append(out, s)
+	}
 	return out
 }
 
